@@ -2,6 +2,7 @@
 From Coq Require Import List ZArith Bool.
 Import ListNotations.
 Require Import Reassembler ReasmInv ReasmC01 ReasmC10 ChkBound ReasmBound ReasmCause ChkReasm ReasmWalk.
+Require ReasmConstsOk.
 Open Scope Z_scope.
 
 (* the bound, for every history (no window needed): after every Push at most
@@ -41,6 +42,11 @@ Theorem C10_head_not_complete : forall c now sqs em last has,
   end.
 Proof. exact head_after_cleanup. Qed.
 
+(* "complete" means what the code means: the record-type numbers of the model are the compiled constants *)
+Theorem C10_completion_constants : ReasmConstsOk.reasm_consts_okb = true.
+Proof. exact ReasmConstsOk.reasm_consts_ok. Qed.
+
+Print Assumptions C10_completion_constants.
 Print Assumptions C10_bound_any_history.
 Print Assumptions C10_bound_and_cause_on_traces.
 Print Assumptions C10_evicted_only_for_cause.
